@@ -23,6 +23,7 @@ RULE = (
     "and only 'at most one list' is asserted); each list equals the (tick, value) subsequence of its "
     "kind in file order; total = number of classified lines. Non-trivial iff >= 2 kinds occur and some "
     "text has a keyword in non-prefix position or an inner quote; distinct = distinct section text."
+    ' Also: long near-twins (two consecutive events on one tick whose texts share their first 61..300 characters).'
 )
 ASSUMPTIONS = [
     "texts never contain a line-boundary character; Unicode white space other than blank/tab is not "
